@@ -6,6 +6,7 @@ import CMacVerif.Lemmas.AtomicsRun
 import CMacVerif.Lemmas.AtomicsHydro
 import CMacVerif.Lemmas.AtomicsMax
 import CMacVerif.Lemmas.AtomicsTask
+import CMacVerif.Lemmas.AtomicsMaint
 /-!
 # C08 — shared scheduler containers never give one slot or task to two owners
 
@@ -828,6 +829,105 @@ example :
     s.threads.map (·.res) = [[.taskLocked 0 false]] ∧ s.mem.locks (.dep 0) = false ∧
     (let cfg' : Cfg := { size := 1, cap := 200, deps := fun _ => setupDeps [.dep 0, .extra 0] }
      (run cfg' (init [[.lockTask 0]]) (List.replicate 3 0)).threads.map (·.res) = [[.taskLocked 0 true]]) := by
+  decide
+
+/-! ## Maintenance calls of ThreadSafeVector between parallel phases
+
+`clear`, `clear_fast` (= `MemorySpace::reset`), `clear_after`, `get_free_elements` are "not meant to
+be thread safe": they are modelled as operations on a *quiescent* state (`Model/AtomicsMaint.lean`:
+every thread idle — the premise), not as transitions of a thread.  `PhaseReach` = everything that
+can be reached by parallel phases (any programs, any schedule) separated by maintenance calls that
+respect the premises stated in the source. -/
+
+inductive PhaseReach (cfg : Cfg) : State → Prop where
+  | init (progs : List (List Cmd)) : PhaseReach cfg (init progs)
+  | run {s : State} (sched : List Nat) : PhaseReach cfg s → PhaseReach cfg (run cfg s sched)
+  | reload {s : State} (progs : List (List Cmd)) : PhaseReach cfg s → Quiescent s → PhaseReach cfg (reload s progs)
+  | clear {s : State} : PhaseReach cfg s → Quiescent s → PhaseReach cfg (maint cfg s .clear)
+  | clearFast {s : State} : PhaseReach cfg s → Quiescent s → PhaseReach cfg (maint cfg s .clearFast)
+  | clearAfter {s : State} (k : Nat) : PhaseReach cfg s → Quiescent s → k ≤ cfg.size →
+      (∀ i, i < k → s.mem.flags i = true) → PhaseReach cfg (maint cfg s (.clearAfter k))
+  | getFreeElements {s : State} (tid n : Nat) (th : Thread) : PhaseReach cfg s → Quiescent s →
+      FreshPool cfg s → n ≤ cfg.size → s.threads[tid]? = some th →
+      PhaseReach cfg (maint cfg s (.getFreeElements tid n))
+
+/-- the pool invariants (per-slot holders = flag, indices in range, count accounting) hold in
+every state of every phase, after any history of phases and maintenance calls -/
+theorem phase_poolInv (cfg : Cfg) (hs : 0 < cfg.size) (s : State) (h : PhaseReach cfg s) : PoolInv cfg s := by
+  induction h with
+  | init progs => exact poolInv_init cfg progs
+  | run sched _ ih => exact poolInv_run_from cfg hs _ sched ih
+  | reload progs _ _ ih => exact reload_poolInv cfg _ progs ih
+  | clear _ hq ih => exact (clear_poolInv cfg _ hq ih).1
+  | clearFast _ _ ih => exact clearFast_poolInv cfg _ ih
+  | clearAfter k _ hq hk hpre ih => exact (clearAfter_poolInv cfg _ k hq ih hk hpre).1
+  | getFreeElements tid n th _ hq hf hn hth ih => exact (getFreeElements_poolInv cfg _ tid n th hq hf ih hn hth).1
+
+/-- **clear_restores_quiescent**: after ANY history, `clear()` applied between phases — whoever
+still held slots — leaves every slot free, the count 0 (= number of set flags = number of slots
+held), the cursor at 0, every buffer empty, the statistics reset. -/
+theorem clear_restores_quiescent (cfg : Cfg) (hs : 0 < cfg.size) (s : State) (h : PhaseReach cfg s)
+    (hq : Quiescent s) :
+    let s' := maint cfg s .clear
+    FreshPool cfg s' ∧ s'.mem.taken = (cnt s'.mem.flags cfg.size : Int) ∧
+    s'.mem.taken = (sumT (fun th => th.owned.length) s'.threads : Int) ∧
+    s'.mem.maxTaken = 0 ∧ (∀ i, i < cfg.size → s'.mem.count i = 0) := by
+  obtain ⟨hp, hf, hq', hm, hc⟩ := clear_poolInv cfg s hq (phase_poolInv cfg hs s h)
+  refine ⟨hf, ?_, taken_eq_owned cfg _ hp hq', hm, hc⟩
+  rw [hf.2.1, cnt_zero _ _ hf.1]; rfl
+
+/-- the same for `clear_after(k)` (premise of the source: the first `k` slots are in use) and
+`get_free_elements(n)` (on an empty pool): count = number of set flags = `k` resp. `n` -/
+theorem clear_after_restores_quiescent (cfg : Cfg) (hs : 0 < cfg.size) (s : State) (h : PhaseReach cfg s)
+    (hq : Quiescent s) (k : Nat) (hk : k ≤ cfg.size) (hpre : ∀ i, i < k → s.mem.flags i = true) :
+    let s' := maint cfg s (.clearAfter k)
+    s'.mem.taken = k ∧ (∀ i, s'.mem.flags i = decide (i < k)) ∧
+    s'.mem.taken = (sumT (fun th => th.owned.length) s'.threads : Int) := by
+  obtain ⟨hp, hq', ht, hfl⟩ := clearAfter_poolInv cfg s k hq (phase_poolInv cfg hs s h) hk hpre
+  exact ⟨ht, hfl, taken_eq_owned cfg _ hp hq'⟩
+
+/-- **clear_fast_requires_all_released**: `clear_fast()` resets cursor and statistics only.  It
+leaves the pool empty **iff** nothing was held (`_number_taken = 0`, the assertion the source
+compiles out); a slot that is still flagged stays flagged — if its holder has dropped the index
+(task-plot keeps tasks) it is leaked. -/
+theorem clear_fast_requires_all_released (cfg : Cfg) (hs : 0 < cfg.size) (s : State) (h : PhaseReach cfg s)
+    (hq : Quiescent s) :
+    (FreshPool cfg (maint cfg s .clearFast) ↔ s.mem.taken = 0) ∧
+    (∀ i, s.mem.flags i = true → (maint cfg s .clearFast).mem.flags i = true) ∧
+    (maint cfg s .clearFast).mem.taken = s.mem.taken :=
+  ⟨clearFast_fresh_iff cfg s hq (phase_poolInv cfg hs s h), fun _ hi => hi, rfl⟩
+
+/-- **pool_reusable_after_clear**: after `clear()` the pool is as after construction, and in the
+next phase — any programs, any schedule — all pool invariants hold again (so `slot_unique`,
+`count_general`, `quiescent_count` apply verbatim); a `get_free_element_safe` passes its check and
+the search loop finds slot 0 at once. -/
+theorem pool_reusable_after_clear (cfg : Cfg) (hs : 0 < cfg.size) (s : State) (h : PhaseReach cfg s)
+    (hq : Quiescent s) (progs : List (List Cmd)) (sched : List Nat) :
+    let s1 := reload (maint cfg s .clear) progs
+    FreshPool cfg (maint cfg s .clear) ∧ PoolInv cfg (run cfg s1 sched) ∧
+    (∀ i, sumT (holdS i) (run cfg s1 sched).threads = ((run cfg s1 sched).mem.flags i).toNat) ∧
+    s1.mem.taken < (cfg.size : Int) ∧ s1.mem.flags (s1.mem.cur % cfg.size) = false := by
+  have hc := clear_poolInv cfg s hq (phase_poolInv cfg hs s h)
+  have hr : PhaseReach cfg (run cfg (reload (maint cfg s .clear) progs) sched) :=
+    .run sched (.reload progs (.clear h hq) hc.2.2.1)
+  have hp := phase_poolInv cfg hs _ hr
+  refine ⟨hc.2.1, hp, hp.1, ?_, ?_⟩
+  · show (maint cfg s .clear).mem.taken < _
+    rw [hc.2.1.2.1]; omega
+  · show (maint cfg s .clear).mem.flags ((maint cfg s .clear).mem.cur % cfg.size) = false
+    rw [hc.2.1.2.2.1]
+    exact hc.2.1.1 _ (by simp [Nat.zero_mod]; exact hs)
+
+/-- non-vacuity (the history of seeded change C08r5b): a pool of 2; the thread takes both slots
+and keeps them; `clear()`; next phase: it can fill the pool to capacity again, the third request
+reports "full" (returns the size), the count is 2 -/
+example :
+    let cfg : Cfg := { size := 2, cap := 200, deps := fun _ => (none, none) }
+    let s := run cfg (init [[.getSafe, .getSafe]]) (List.replicate 16 0)
+    let s' := run cfg (reload (maint cfg s .clear) [[.getSafe, .getSafe, .getSafe, .numActive]]) (List.replicate 22 0)
+    s.mem.taken = 2 ∧ s.threads.map (·.owned) = [[1, 0]] ∧ s.threads.all Thread.finished = true ∧
+    (maint cfg s .clear).mem.taken = 0 ∧
+    s'.threads.map (·.owned) = [[1, 0]] ∧ (s'.threads.map (·.res.take 4)) = [[.active 2, .slot 2, .slot 1, .slot 0]] := by
   decide
 
 end CMacVerif.Atomics
